@@ -39,6 +39,8 @@ inline const std::vector<CstType>& AllTypes() {
   static const std::vector<CstType> t{ CstType::base, CstType::constant, CstType::structured, CstType::axiom, CstType::term, CstType::function, CstType::theorem, CstType::predicate };
   return t;
 }
+// ops carry the kind as an integer; anything that is not a valid kind (e.g. after shrinking) means "base set"
+inline CstType TypeFrom(int64_t v) { for (auto t : AllTypes()) if (static_cast<int64_t>(t) == v) return t; return CstType::base; }
 inline char LetterOf(CstType t) {
   switch (t) { case CstType::base: return 'X'; case CstType::constant: return 'C'; case CstType::structured: return 'S'; case CstType::axiom: return 'A';
   case CstType::term: return 'D'; case CstType::function: return 'F'; case CstType::theorem: return 'T'; default: return 'P'; }
